@@ -573,9 +573,12 @@ impl Exception {
         error_info: Option<Value>,
     ) -> Self {
         let error_code = error_code.unwrap_or_else(|| Value::from("NONE"));
-        let error_info = error_info.unwrap_or_else(Value::empty);
 
-        let data = ErrorData::rethrow(error_code, error_info.as_str());
+        // Without -errorinfo this is a new error: its trace starts with the message.
+        let data = match error_info {
+            Some(info) => ErrorData::rethrow(error_code, info.as_str()),
+            None => ErrorData::new(error_code, msg.as_str()),
+        };
 
         Self {
             code: if level == 0 {
